@@ -42,13 +42,24 @@ type srvLogger6 struct{ logf func(string) }
 func (l srvLogger6) PrintMessage(prefix string, m *dhcpv6.Message) { l.logf("msg " + prefix) }
 func (l srvLogger6) Printf(format string, v ...interface{})        { l.logf("printf " + format) }
 
+// srvLoggerVariant: which logger the server of the current run is built with (drawn per
+// run): 0 the harness's, 1 the library's debug logger, 2 its summary logger.
+var srvLoggerVariant int
+
 type srv4 struct{}
 
 func (srv4) Name() string { return "v4" }
 
 func (srv4) Start(conn net.PacketConn, handler func(net.Addr, interface{}), logf func(string)) (func() error, func() error, error) {
 	h := func(c net.PacketConn, peer net.Addr, m *dhcpv4.DHCPv4) { handler(peer, m) }
-	s, err := server4.NewServer("", nil, h, server4.WithConn(conn), server4.WithLogger(srvLogger4{logf}))
+	lopt := server4.WithLogger(srvLogger4{logf})
+	switch srvLoggerVariant {
+	case 1:
+		lopt = server4.WithDebugLogger() // the library's own loggers print (read) every message
+	case 2:
+		lopt = server4.WithSummaryLogger()
+	}
+	s, err := server4.NewServer("", nil, h, server4.WithConn(conn), lopt)
 	if err != nil {
 		return nil, nil, err
 	}
@@ -151,7 +162,14 @@ func (srv6) Name() string { return "v6" }
 
 func (srv6) Start(conn net.PacketConn, handler func(net.Addr, interface{}), logf func(string)) (func() error, func() error, error) {
 	h := func(c net.PacketConn, peer net.Addr, m dhcpv6.DHCPv6) { handler(peer, m) }
-	s, err := server6.NewServer("", nil, h, server6.WithConn(conn), server6.WithLogger(srvLogger6{logf}))
+	lopt := server6.WithLogger(srvLogger6{logf})
+	switch srvLoggerVariant {
+	case 1:
+		lopt = server6.WithDebugLogger()
+	case 2:
+		lopt = server6.WithSummaryLogger()
+	}
+	s, err := server6.NewServer("", nil, h, server6.WithConn(conn), lopt)
 	if err != nil {
 		return nil, nil, err
 	}
@@ -329,6 +347,7 @@ func (st *srvState) start(tier string) {
 	// sequence length: mostly short, sometimes up to 200
 	n := []int{0, 1, 2, 3, 5, 8, 15, 30, 60, 120, 200}[t.Weighted(1, 3, 3, 3, 4, 4, 3, 2, 1, 1, 1)]
 	st.planned = n
+	srvLoggerVariant = t.Weighted(3, 1, 1)
 	st.badHeavy = t.Coin(1, 8)
 	if st.badHeavy {
 		s.Probe("run-with-mostly-bad-datagrams")
